@@ -161,6 +161,11 @@ type (
 		Body   Expr
 	}
 	EZero struct{ Type string } // T{}
+	EComposite struct {
+		Type   string
+		Fields []string
+		Vals   []Expr
+	}
 	EType struct{ Text string } // raw type text (second arg of errAs / typeof compare)
 )
 
@@ -192,6 +197,13 @@ func (e *EQuant) String() string {
 	return fmt.Sprintf("(%s %s in %s..%s :: %s)", e.Kind, e.Var, e.Lo, e.Hi, e.Body)
 }
 func (e *EZero) String() string { return e.Type + "{}" }
+func (e *EComposite) String() string {
+	var fs []string
+	for i, f := range e.Fields {
+		fs = append(fs, f+": "+e.Vals[i].String())
+	}
+	return e.Type + "{" + strings.Join(fs, ", ") + "}"
+}
 func (e *EType) String() string { return e.Text }
 
 // ---- parser ---------------------------------------------------------------------------------
@@ -430,8 +442,25 @@ func (p *specParser) postfix(x Expr) Expr {
 				return x
 			}
 			p.next()
+			if p.accept("}") {
+				x = &EZero{Type: id.Name}
+				continue
+			}
+			comp := &EComposite{Type: id.Name}
+			for {
+				f := p.next()
+				if f.k != tIdent {
+					p.fail("expected field name in composite literal")
+				}
+				p.expect(":")
+				comp.Fields = append(comp.Fields, f.s)
+				comp.Vals = append(comp.Vals, p.expr(0))
+				if !p.accept(",") {
+					break
+				}
+			}
 			p.expect("}")
-			x = &EZero{Type: id.Name}
+			x = comp
 		default:
 			return x
 		}
